@@ -507,11 +507,12 @@ func (data *Data) AddCmdAsOpToOpMap(op proto2.Command, newIndex uint64) {
 }
 
 func (data *Data) DBReplicaN(db string) int {
-	replicaN := data.Databases[db].ReplicaN
-	if replicaN == 0 {
+	dbi := data.Databases[db]
+	if dbi == nil || dbi.ReplicaN == 0 {
+		// a partition view can exist without its database (CreateDatabase failed after CreateDbPtView)
 		return 1
 	}
-	return replicaN
+	return dbi.ReplicaN
 }
 
 func (data *Data) GetReplicaN(db string) (int, bool) {
@@ -2577,6 +2578,9 @@ func (data *Data) expandDBPtView(database string, ptNum uint32, newNode *DataNod
 }
 
 func (data *Data) chooseRG(database string, newNode *DataNode, replicaN int) {
+	if data.ReplicaGroups == nil {
+		data.ReplicaGroups = make(map[string][]ReplicaGroup)
+	}
 	ChooseRGFns[repDisPolicy](data, database, newNode, replicaN)
 }
 
